@@ -77,6 +77,24 @@ def run_case(ctx, seed, idx, tier):
                                              conj_all(nv)], nv)
         return control.run_control(ctx, clauses, qn, na, None, c, _nt)
     rng = random.Random((seed * 1000003 + idx) * 7 + 5)
+    if rng.random() < 0.1:
+        # long clauses (up to the compiler's size limit) with a cut somewhere, also inside a trailing if-then-else
+        n = rng.choice([12, 15, 16, 17, 18, 19])
+        goals = []
+        nv = 0
+        cutpos = rng.randrange(1, n)
+        for i in range(n):
+            if i == cutpos:
+                goals.append(('cut',))
+                continue
+            nv += 1
+            goals.append(('call', C(rng.choice(['m', 'm'] if i < 2 or i == n - 1 else ['o']), V('V%d' % nv))))
+        if rng.random() < 0.3:
+            nv += 1
+            goals[-1] = ('or', ('then', ('call', C('o', V('V%d' % nv))), ('cut',)), ('true',))
+        body = gen.conj(goals)
+        clauses, qn, na = control.wrap_body([body, conj_all(nv)], nv)
+        return control.run_control(ctx, clauses, qn, na, rng, {'long_bodies': 1}, _nt)
     w = {'and': 0.50, 'or': 0.20, 'ite': 0.15, 'then': 0.07, 'not': 0.08}
     clauses, qn, na = gen.gen_control_case(rng, weights=w, allow_cut_p=1.0)
     c = {'random_bodies': 1}
